@@ -1545,6 +1545,41 @@ def _strip_docstrings(tree):
                 n.body[:] = body or [ast.copy_location(ast.Pass(), n.body[0])]
 
 
+class _Beta(ast.NodeTransformer):
+    """N7: `(lambda v: E)(a)` -> E[v := a] for plain positional parameters and arguments that are names, attribute chains
+    or constants (no evaluation-order or multiplicity concern).  The reference tree has no immediately applied lambda;
+    they arise when a helper taking a callable is inlined (N1) at a call site that passes a lambda."""
+
+    def __init__(self, stats):
+        self.stats = stats
+
+    def visit_Call(self, node):
+        self.generic_visit(node)
+        f = node.func
+        if not isinstance(f, ast.Lambda) or node.keywords:
+            return node
+        a = f.args
+        if a.vararg or a.kwarg or a.kwonlyargs or a.defaults or a.posonlyargs or len(a.args) != len(node.args):
+            return node
+
+        def simple(e):
+            while isinstance(e, ast.Attribute):
+                e = e.value
+            return isinstance(e, (ast.Name, ast.Constant))
+        if not all(simple(x) for x in node.args):
+            return node
+        mapping = {p.arg: x for p, x in zip(a.args, node.args)}
+        # capture: a name of an argument must not be re-bound inside the body (comprehension / inner lambda targets)
+        arg_names = {n.id for x in node.args for n in ast.walk(x) if isinstance(n, ast.Name)}
+        rebound = {n.id for n in ast.walk(f.body) if isinstance(n, ast.Name) and isinstance(n.ctx, ast.Store)}
+        rebound |= {p.arg for n in ast.walk(f.body) if isinstance(n, ast.Lambda) for p in n.args.args}
+        if arg_names & rebound:
+            return node
+        body = _Subst(mapping).visit(_clone(f.body))
+        self.stats["beta_reduced"] = self.stats.get("beta_reduced", 0) + 1
+        return ast.copy_location(body, node)
+
+
 def apply(modname, tree):
     stats = {}
     if os.environ.get("HSA_NO_NORMALIZE") or os.environ.get("HSA_NO_CANON"):
@@ -1556,6 +1591,7 @@ def apply(modname, tree):
         return stats
     ref_funcs = set(ref.get("functions", []))
     _inline_helpers(tree, modname, ref_funcs, stats)
+    _Beta(stats).visit(tree)
     ref_locals = table.get(modname, {})
     for n in ast.walk(tree):
         for c in ast.iter_child_nodes(n):
